@@ -4196,6 +4196,10 @@ def _parse_simple_lines(
 def parse(src: str) -> Program:
     """Parse ``src`` into a :class:`~Reduino.transpile.ast.Program`."""
 
+    # Text that is not Python is rejected up front (SyntaxError) instead of
+    # having its unparseable lines silently ignored by the line-based passes.
+    ast.parse(src)
+
     lines = src.splitlines()
     setup_body: List[object] = []
     loop_body: List[object]  = []
